@@ -374,6 +374,19 @@ func SelfSignedCert(k *CertKey, name string) []byte {
 	return der
 }
 
+// SelfSignedCertNoNames is a self-signed certificate of k's key without any
+// subject alternative name (and without a common name).
+func SelfSignedCertNoNames(k *CertKey) []byte {
+	tmpl := &x509.Certificate{SubjectKeyId: k.Pkix, ExtKeyUsage: []x509.ExtKeyUsage{x509.ExtKeyUsageClientAuth},
+		KeyUsage: x509.KeyUsageDigitalSignature, SerialNumber: big.NewInt(13),
+		NotBefore: time.Now().Add(-24 * time.Hour), NotAfter: time.Now().Add(24 * time.Hour * 3650)}
+	der, err := x509.CreateCertificate(DetRand("selfsigned-nonames:"+k.Name), tmpl, tmpl, k.Pub, k.Priv)
+	if err != nil {
+		panic(err)
+	}
+	return der
+}
+
 // SelfSignedCertWithSKI is a self-signed certificate of k's key whose subject key id claims ski.
 func SelfSignedCertWithSKI(k *CertKey, ski []byte) []byte {
 	tmpl := &x509.Certificate{AuthorityKeyId: ski, SubjectKeyId: ski, ExtKeyUsage: []x509.ExtKeyUsage{x509.ExtKeyUsageClientAuth},
